@@ -25,6 +25,10 @@ type vrtExec struct {
 
 func (e *vrtExec) Exec(ctx context.Context, qCtx *query_context.Context) error {
 	vrtAtomic(func() { e.started = true })
+	if e.outcome == 3 { // slow worker: does not finish before its own deadline
+		<-ctx.Done()
+		return ctx.Err()
+	}
 	var err error
 	vrtAtomic(func() {
 		switch e.outcome {
@@ -83,8 +87,8 @@ func vrtHarness_C20_noTimer() {
 // the two workers' answers; ErrFailed only if both failed; without always_standby
 // the secondary starts only after primary failure or the threshold timer.
 func vrtHarness_C20_timers() {
-	p := &vrtExec{outcome: vrtChoice(3), answer: vrtAnswer(1)}
-	s := &vrtExec{outcome: vrtChoice(3), answer: vrtAnswer(2)}
+	p := &vrtExec{outcome: vrtChoice(4), answer: vrtAnswer(1)}
+	s := &vrtExec{outcome: vrtChoice(4), answer: vrtAnswer(2)}
 	f := &fallback{logger: zap.NewNop(), primary: p, secondary: s, fastFallbackDuration: 500 * time.Millisecond, alwaysStandby: vrtChoice(2) == 1}
 	qCtx := query_context.NewContext(vrtQuery())
 	ctx, cancel := context.WithCancel(context.Background())
@@ -93,6 +97,7 @@ func vrtHarness_C20_timers() {
 		go func() {
 			vrtAtomic(func() { cancelled = true })
 			cancel()
+			vrtFreezeTimers() // "the call ends when the caller's context ends": without any further timer event
 		}()
 	}
 	err := f.doFallback(ctx, qCtx)
@@ -105,6 +110,10 @@ func vrtHarness_C20_timers() {
 		vrtAssert("ErrFailed only if both workers finished without an answer", vrtAnd(p.outcome != 0, s.outcome != 0))
 	} else {
 		vrtAssert("any other error is the context's", vrtAnd(cancelled, err == context.Canceled))
+	}
+	if vrtAnd(cancelled, p.outcome == 3, s.outcome == 3, vrtTimerFires() == 0) {
+		vrtCover("cancelled while both workers are slow", true)
+		vrtAssert("the call ends with the caller's context", err == context.Canceled)
 	}
 	cancel()
 }
